@@ -84,8 +84,7 @@ theorem rt_dims (env : Env) (hlim : env.limit = none) (c : Bool) (dlen : Nat) (d
       exact r4 rest a
 
 theorem encVarValue_eq (tid k : Nat) (value : Val) (ht : tid ≠ 0) :
-    encVarValue encT tid ⟨tid, k⟩ value =
-      if tid = 15 then encVarLeaf encT tid value else encElems (encVarLeaf encT tid) (leaves value) := by
+    encVarValue encT tid ⟨tid, k⟩ value = encElems (encVarLeaf encT tid) (leaves value) := by
   unfold encVarValue
   simp only
   rw [if_neg]
@@ -96,7 +95,7 @@ theorem rt_variant_array (env : Env) (hlim : env.limit = none) (hrec : RecOk enc
     (hshape : ∀ tid ty v, vElemTy tid = some ty → wtT ty v = true → IsLeafVal v)
     (mask alen dlen : Nat) (dims : Option (List Nat)) (value : Val)
     (hm : mask < 256) (t0 : ¬ mask % 64 = 0) (t25 : ¬ mask % 64 > 25) (harr : has mask 0x80 = true)
-    (hal : alen ≤ 65535) (h15 : mask % 64 = 15 → alen = 0)
+    (hal : alen ≤ 65535)
     (hdims : if has mask 0x40 then
         (∃ ds, dims = some ds ∧ ds.length = dlen ∧ dlen < 2147483648 ∧ (∀ d ∈ ds, 1 ≤ d ∧ d < 2147483648) ∧
           (dlen = 0 ∨ prodNat ds = alen))
@@ -144,25 +143,10 @@ theorem rt_variant_array (env : Env) (hlim : env.limit = none) (hrec : RecOk enc
     simp [h1, h2, h3]
   -- the encoder
   have henc : encVarValue encT (mask % 64) ⟨mask % 64, max 1 dlen⟩ value = .ok eb := by
-    rw [encVarValue_eq _ _ _ t0]
-    by_cases h15' : mask % 64 = 15
-    · have ha := h15 h15'
-      have hL0 : L = [] := List.eq_nil_of_length_eq_zero (by omega)
-      subst hL0
-      simp only [encElems] at heb
-      cases heb
-      simp only [h15', if_true]
-      by_cases hd2 : dlen < 2
-      · simp only [hd2, if_true] at hval
-        subst hval
-        rfl
-      · have := (hprod (by omega)).2.1
-        have hp := prodL_pos (hprod (by omega)).2.2.2
-        omega
-    · simp only [h15', if_false, hL]
-      exact heb
+    rw [encVarValue_eq _ _ _ t0, hL]
+    exact heb
   refine ⟨leBytes 1 mask ++ leBytes 4 alen ++ eb ++ (b1 ++ b2), ?_, ?_⟩
-  · simp only [encVariant, t0, if_false, henc, Enc.bind_ok, hd, Enc.pure_eq, optBytes, harr, if_true]
+  · simp only [encVariant, t0, if_false, henc, Enc.bind_ok, harr, Bool.true_and, hd, Enc.pure_eq, optBytes, if_true]
   · unfold decVariant
     have hassoc : leBytes 1 mask ++ leBytes 4 alen ++ eb ++ (b1 ++ b2)
         = leBytes 1 mask ++ (leBytes 4 alen ++ (eb ++ (b1 ++ (b2 ++ [])))) := by simp
@@ -255,9 +239,7 @@ theorem rt_variant (env : Env) (hlim : env.limit = none) (hrec : RecOk encT decT
           subst hnil
           have henc : encVarValue encT (mask % 64) ⟨mask % 64, 1⟩ (.slice true []) = .ok [] := by
             rw [encVarValue_eq _ _ _ t0]
-            by_cases h15 : mask % 64 = 15
-            · simp only [h15, if_true]; rfl
-            · simp only [h15, if_false]; rfl
+            rfl
           refine ⟨leBytes 1 mask ++ leBytes 4 4294967295, ?_, ?_⟩
           · simp [encVariant, t0, henc, optBytes, optEnc, harr, h40]
           · unfold decVariant
@@ -267,7 +249,7 @@ theorem rt_variant (env : Env) (hlim : env.limit = none) (hrec : RecOk encT decT
             intro rest a
             simp [maxVariantArrayLength, decVarElems, optDec, h40, toInt32, normVariant, t0, normArr_slice]
         · simp only [hnil, if_false, Bool.and_eq_true, decide_eq_true_eq] at h
-          obtain ⟨⟨hal, h15⟩, h⟩ := h
+          obtain ⟨hal, h⟩ := h
           cases h40 : has mask 0x40 with
           | false =>
             simp only [h40, Bool.false_eq_true, not_false_eq_true, if_true, Bool.and_eq_true, decide_eq_true_eq] at h
@@ -275,7 +257,7 @@ theorem rt_variant (env : Env) (hlim : env.limit = none) (hrec : RecOk encT decT
             obtain ⟨xs, rfl, hxl, hxw⟩ := wtArr_one harr1
             have hL : leaves (.slice false xs) = xs := by
               rw [leaves_slice]; exact leavesL_eq (fun x hx => hleaf1 x (hxw x hx))
-            have := rt_variant_array env hlim hrec hshape mask alen 0 none (.slice false xs) hm t0 t25 harr hal h15
+            have := rt_variant_array env hlim hrec hshape mask alen 0 none (.slice false xs) hm t0 t25 harr hal
               (by simp [h40]) xs hL hxl hxw (by simp)
             simpa [normVariant, t0] using this
           | true =>
@@ -296,7 +278,7 @@ theorem rt_variant (env : Env) (hlim : env.limit = none) (hrec : RecOk encT decT
                 obtain ⟨xs, rfl, hxl, hxw⟩ := wtArr_one hval
                 have hL : leaves (.slice false xs) = xs := by
                   rw [leaves_slice]; exact leavesL_eq (fun x hx => hleaf1 x (hxw x hx))
-                have := rt_variant_array env hlim hrec hshape mask alen dlen (some ds) (.slice false xs) hm t0 t25 harr hal h15
+                have := rt_variant_array env hlim hrec hshape mask alen dlen (some ds) (.slice false xs) hm t0 t25 harr hal
                   hdimsH xs hL hxl hxw (by simp [hd2])
                 simpa [normVariant, t0] using this
               · simp only [hd2, if_false] at hval
@@ -306,21 +288,19 @@ theorem rt_variant (env : Env) (hlim : env.limit = none) (hrec : RecOk encT decT
                   rcases hprod with h0 | hp
                   · omega
                   · exact hp
-                have := rt_variant_array env hlim hrec hshape mask alen dlen (some ds) value hm t0 t25 harr hal h15
+                have := rt_variant_array env hlim hrec hshape mask alen dlen (some ds) value hm t0 t25 harr hal
                   hdimsH (leaves value) rfl hlen hlw (by simp [hd2, hsh])
                 simpa [normVariant, t0] using this
       | false =>
         -- scalar
         simp only [harr, Bool.false_eq_true, not_false_eq_true, if_true, Bool.and_eq_true, Bool.not_eq_true', decide_eq_true_eq] at h
-        obtain ⟨⟨h40, rfl, rfl, rfl, rfl⟩, hl⟩ := h
+        obtain ⟨⟨rfl, rfl, rfl, rfl⟩, hl⟩ := h
         obtain ⟨hlv, b, hb, rb⟩ := rt_varLeaf hrec hshape (mask % 64) value hl
         have henc : encVarValue encT (mask % 64) ⟨mask % 64, 0⟩ value = .ok b := by
           rw [encVarValue_eq _ _ _ t0, hlv]
-          by_cases h15 : mask % 64 = 15
-          · simp only [h15, if_true]; rw [← h15]; exact hb
-          · simp only [h15, if_false, encElems, hb, Enc.bind_ok, Enc.pure_eq, List.append_nil]
+          simp only [encElems, hb, Enc.bind_ok, Enc.pure_eq, List.append_nil]
         refine ⟨leBytes 1 mask ++ b, ?_, ?_⟩
-        · simp [encVariant, t0, henc, optBytes, optEnc, harr, h40]
+        · simp [encVariant, t0, henc, optBytes, optEnc, harr]
         · unfold decVariant
           refine Reads.bind rm ?_
           simp only [t0, t25, harr, if_false, Bool.false_eq_true, not_false_eq_true, if_true]
